@@ -253,7 +253,8 @@ def run(prop, tier, replay=None):
     if broken:
         for b in broken:
             vlib.log("BROKEN:", b)
-        return 2
+        if not violations:       # (what the working parts observed on the real code stands: a violation is reported even if another part broke)
+            return 2
     if violations:
         for r, path in violations[:10]:
             print("VIOLATION property=%s replay=%s" % (prop, path))
